@@ -58,6 +58,7 @@ package jschema
 //@ func (*exampleBuilder).buildExampleForMixedValueNode(node)
 //@   props C11 C15
 //@   requires b != nil && node != nil && b.processedTypes != nil
+//@   assumes allocated(node.schemaLexEvent.file) && allocated(node.schemaLexEvent.file.content)
 //@   assumes lexWF(node.schemaLexEvent) && 0 <= node.schemaLexEvent.begin && node.schemaLexEvent.begin <= node.schemaLexEvent.end && node.schemaLexEvent.file.content[node.schemaLexEvent.begin] != ',' && node.schemaLexEvent.file.content[node.schemaLexEvent.end] != ','
 //@   assumes forall k string :: dom(b.types, k) ==> b.types[k].schema != nil
 //@   maypanic
